@@ -10,7 +10,7 @@ import vlib
 
 BASE = dict(LeafCap=3, IntCap=3, FixSplitTomb="TRUE", FixDeleteLSN="TRUE", FixReplayLSN="TRUE", FixReplayRoot="TRUE", FixReplayKey="TRUE", FixStmtAtomic="TRUE",
             Tables='{"t1", "t2"}', Vals="{1, 2}", BadMode='"none"', WalSteps="FALSE", FlushSteps="FALSE",
-            CrashAt="{}", NoCrashIn="{}", Wheres=None, DmlTables=None, Ops='{"create", "insert", "update", "delete"}', MaxStmts=4, MaxRows=2, MaxFlush=1, MaxCrash=0, MaxEvict=0, EmitOn="TRUE", EmitSel='"all"')
+            CrashAt="{}", NoCrashIn="{}", Wheres=None, DmlTables=None, Ops='{"create", "insert", "update", "delete"}', MaxStmts=4, MaxRows=2, MaxFlush=1, MaxCrash=0, MaxEvict=0, EmitOn="TRUE", EmitSel='"all"', EmitMod=1)
 INVS = "ScanEqAbs CatalogOK TreesOK IdsOK StartsUp NothingLost"
 
 
@@ -78,7 +78,7 @@ class StoreRun:
             mids[(len(sc["steps"]), key_of(sc["steps"]))] = dict(out=sc["out"], allowed=sc["allowed"], abs=sc["abs"])
         todo = [sc for sc in scns if not sc.get("_unselected")]
         total = len(todo)
-        if seen[0] > len(scns):
+        if seen[0] > len(scns) or int(consts.get("EmitMod", 1)) > 1:
             cov["exhaustive"] = False
         if self.sample is not None and len(todo) > self.sample:
             rng = random.Random(ctx.seed * 7919 + len(todo))
